@@ -10,6 +10,7 @@ import (
 	"iter"
 	"maps"
 	"os"
+	"path/filepath"
 	"slices"
 	"strings"
 	"sync"
@@ -105,12 +106,47 @@ func (s *ManagedServer) saveToFile() error {
 	}
 	b = append(b, '\n') // b has plenty of unused capacity.
 
-	if err = os.WriteFile(s.path, b, 0644); err != nil {
+	if err = writeFileAtomic(s.path, b, 0644); err != nil {
 		return err
 	}
 
 	s.cachedContent = unsafe.String(unsafe.SliceData(b), len(b))
 	return nil
+}
+
+// writeFileAtomic writes data to a temporary file in the same directory and renames it over path,
+// so that a crash or a write error at any point leaves either the old or the new content at path,
+// never a truncated file. perm is used if path does not exist yet.
+func writeFileAtomic(path string, data []byte, perm os.FileMode) (err error) {
+	if fi, err := os.Stat(path); err == nil {
+		perm = fi.Mode().Perm()
+	}
+
+	f, err := os.CreateTemp(filepath.Dir(path), filepath.Base(path)+".tmp-*")
+	if err != nil {
+		return err
+	}
+	tmpPath := f.Name()
+	defer func() {
+		if err != nil {
+			_ = f.Close()
+			_ = os.Remove(tmpPath)
+		}
+	}()
+
+	if _, err = f.Write(data); err != nil {
+		return err
+	}
+	if err = f.Chmod(perm); err != nil {
+		return err
+	}
+	if err = f.Sync(); err != nil {
+		return err
+	}
+	if err = f.Close(); err != nil {
+		return err
+	}
+	return os.Rename(tmpPath, path)
 }
 
 func (s *ManagedServer) dequeueSave(ctx context.Context) {
